@@ -89,7 +89,10 @@ class MachineModel:
             raise TypeError(f'Expected GateSet, got {type(gate_set)}.')
 
         self.gate_set = gate_set
-        self.coupling_graph = CouplingGraph(coupling_graph)
+        if isinstance(coupling_graph, CouplingGraph):
+            self.coupling_graph = CouplingGraph(coupling_graph)
+        else:
+            self.coupling_graph = CouplingGraph(coupling_graph, num_qudits)
         self.num_qudits = num_qudits
 
     def get_locations(self, block_size: int) -> list[CircuitLocation]:
